@@ -55,7 +55,7 @@ def random_numeric_run(rng, tier):
     cfg = dict(type=typ, startEp=1, epochs=rng.randint(1, 4 if tier == "quick" else 6), N=N, posB=pb,
                negB=rng.choice([0, pb, 1, 2, 5]), data=data, bases=bases, sched=sched, entryStop=False,
                again="no", perms="all", cbs=[{"t": "rec"}], vals=[], vars=[])
-    k = rng.randint(0, 3)
+    k = 1 if rng.random() < 0.4 else rng.randint(0, 3)        # (k = 1 is the published default and is then left out as often as passed)
     plan = set()
     if rng.random() < 0.3:
         plan.add((rng.choice(["BS", "BE", "EE"]), rng.randint(1, 3), rng.choice([0, 1, -1]), 1))
